@@ -8,6 +8,7 @@ be 1 within 1e-5 per unit of exponent degree.
 """
 from __future__ import annotations
 
+import ast
 import os
 from decimal import Decimal
 from fractions import Fraction
@@ -119,7 +120,7 @@ def run(rep: Report) -> None:
     rep.rule("R09.2", "no unordered pair of units is declared twice with different values")
     rep.rule("R09.3", "every dependent equation of the multiplicative system (every cycle of the "
              "definition graph) has residual 1 within 1e-5 x exponent degree", floor=60)
-    rep.rule("R09.4", "every defined base unit's size is determined by the equations and the SI anchors", floor=150)
+    rep.rule("R09.4", "every defined base unit's size is determined by the equations and the SI anchors", floor=140)
     rep.rule("R09.5", "every declared ratio is finite and positive", floor=200)
     rep.rule("R09.7", "reachable for the planner (necessary condition from the planner's own rules, re-verified in conversions.py): a "
              "named unit that is not decomposed through a compound equivalence of its own has a declared path to the SI target or "
@@ -171,6 +172,12 @@ def run(rep: Report) -> None:
         anchors = []
     pr = PlannerReach(ev)
     n7 = 0
+    # anchor F5: _reduce_dimension takes the gcd of the start's dimension exponents and the root of both units, or nothing
+    rd = prog.func("conversions._reduce_dimension")
+    rdt = ast.unparse(rd.node).replace(" ", "")
+    reduce_anchor = bool(anchors) and "gcd(*" in rdt and ".dimension.exponents)" in rdt and rdt.count(".root(") >= 2 and "FractionalDimensionError" in rdt
+    if anchors and reduce_anchor:
+        anchors.append("F5: _reduce_dimension = gcd of the start's dimension exponents, both roots or neither")
     if anchors and sheds is not None:
         anchors.append("F4: _cancel_factors " + ("drops a left-over dimensionless factor without a step" if sheds else
                                                   "emits plan steps for a left-over dimensionless factor"))
@@ -196,6 +203,11 @@ def run(rep: Report) -> None:
         rep.check("R09.7", f"{u.module}:{u.var or u.name}", ok,
                   f"{u.name!r} cannot be converted to or from the SI unit of its dimension by the planner: {why} "
                   "(ConversionNotFound, although the declarations determine its size)", u.where, note=why if ok else None)
+        if ok and reduce_anchor:
+            ok2, why2 = pr.may_convert_from(target, u)
+            rep.check("R09.7", f"{u.module}:{u.var or u.name}:from-SI", ok2,
+                      f"the SI unit of its dimension cannot be converted *to* {u.name!r}: {why2} (ConversionNotFound in that direction only)",
+                      u.where, note=why2 if ok2 else None)
     rep.analysed["planner_anchors"] = anchors
     rep.not_decided.append("that the library's conversion planner actually finds a route for every unit that passes the "
                            "necessary condition R09.7, and the value it computes (C04)")
